@@ -394,7 +394,7 @@ def check(pid, tier, seed, args):
             # is lost, not that the property fails: it needs a concrete failing input to count
             proof_lost.append((full, path, record))
 
-    # ---- bounded stand-in (thorough always; quick only when the proof is not (re-)established)
+    # ---- bounded stand-in (both tiers; quick size in the quick tier)
     proof_ok = not (unknown or undecided or missing or errors or proof_lost)
     standin = None
     unreplayed = [v for v in violations if not v[2]]
